@@ -26,6 +26,7 @@ var Quirks = []Quirk{
 	{ID: "C01-usertype-in-inline-object", Detect: hasUserTypeInInlineObject, SigAny: []string{"undefined: _"}},
 	{ID: "C01-body-attr-optional-nonpointer", Detect: hasBodyAttrOptionalNonPointer, SigAny: []string{"cannot use &_ (value of type *"}},
 	{ID: "C01-path-param-named-p", Detect: hasPathParamNamedP, SigAny: []string{"client/encode_decode: cannot use"}},
+	{ID: "C01-two-schemes-same-type", Detect: hasTwoSchemesSameType, SigAny: []string{"redeclared", "duplicate method"}},
 	{ID: "C01-body-fields-user-type", Detect: hasBodyFieldsUserType, SigAny: []string{"client/types: cannot use _ (variable of type *struct{…}"}},
 	{ID: "C01-body-fields-inline-required", Detect: hasBodyFieldsInlineRequired, SigAny: []string{"== nil (mismatched types", "cannot indirect"}},
 }
@@ -300,4 +301,28 @@ func hasBodyFieldsInlineRequired(d *m.Design) bool {
 		}
 		return false
 	})
+}
+
+func hasTwoSchemesSameType(d *m.Design) bool {
+	for _, s := range d.Services {
+		kinds := map[string]map[string]bool{}
+		for _, meth := range s.Methods {
+			for _, r := range EffectiveSecurity(d, s, meth) {
+				for _, n := range r.Schemes {
+					if sc := SchemeByName(d, n); sc != nil {
+						if kinds[sc.Kind] == nil {
+							kinds[sc.Kind] = map[string]bool{}
+						}
+						kinds[sc.Kind][n] = true
+					}
+				}
+			}
+		}
+		for _, names := range kinds {
+			if len(names) > 1 {
+				return true
+			}
+		}
+	}
+	return false
 }
